@@ -10,14 +10,13 @@ correspondence in `harness/props/c04.py`.
 Quantifiers: all field values (`Int` for every integer argument: out-of-range ones are rejected, `inRange_iff_encodes`),
 all byte strings for names, identifiers, blocks and payloads, all lists of reminders / changes.
 
-Three statements are FALSE for the code as it stands (each with a kernel-checked witness below, confirmed on the real
-code by the check): D2 hello names containing `|`, D3 payloads containing `</DESCN><DATAS>`, D4 SETWC / WCREQ claimed by
-nobody.  The corresponding theorems carry a hypothesis that is GUARDED by a Boolean computed from what the translator
-reads (`helloNeedsCleanName`, `regexNeedsCleanPayload`, `Msg.orphan`), and their proofs cover both the current and the
-repaired source.  So when a `fix:` lands the guard evaluates to `false`, the hypothesis becomes vacuous and the very same
-theorem is the full-strength statement — nothing has to be re-proved (then drop the `_partial` suffix and the guard).
-The full statement is also kept in a comment next to each, and proved outright for the repaired parameter values
-(`hello_roundtrip_split1`, `frame_roundtrip_lazy`).
+History: three of the statements were false for the audited commit and are true since the `fix:` commits 8ce8f9d (D2 hello
+names containing `|`: `split(b"|", 1)`), 7778cb2 (D3 payloads containing `</DESCN><DATAS>`: the two identifier groups are
+lazy) and b4425b7 (D4 SETWC / WCREQ are claimed, SETWC is decoded).  They are now stated at full strength about the
+generated definitions (`hello_roundtrip`, `frame_roundtrip`, `claimed_by_exactly` with `orphan_none`); a regression of the
+source changes `helloSplitMax` / `regexGreedy` / `claims_Watercare` and these proofs stop building.  What the OLD code
+did is kept as theorems about explicit old parameters (`hello_name_with_bar_fails`, `frame_roundtrip_fails`,
+`frame_roundtrip_greedy`, `hello_roundtrip_split`, `old_watercare_claims_miss_setwc_wcreq`): true whatever the source says.
 -/
 import GeckoModel.Proofs.WireClaims
 import GeckoModel.Generated.WirePins
@@ -48,11 +47,11 @@ theorem encode_rejects (m : Msg) (h : m.inRange = false) : ∃ e, m.content = .e
 handler class meant for it decodes to exactly the fields the message was built from.
 `inDomain`: GeckoReminderType values for reminder types, STATP records of the shape the 4-byte-record decoder reads
 (all but the last 2 data bytes, the last ≤ 2 — the library sends one 1- or 2-byte record per message), a platform name
-without `,` `_` `.`.  `isWcSet`: SETWC has no decoder in the library (D4, `setwc_fields_lost`). -/
-theorem roundtrip (m : Msg) (hr : m.inRange = true) (hh : m.isHello = false) (hd : m.inDomain = true)
-    (hs : m.isWcSet = false) : ∃ c, m.content = .ok c ∧ ∀ k ∈ m.handlers, decode k c = .ok m.fields := by
+without `,` `_` `.`. -/
+theorem roundtrip (m : Msg) (hr : m.inRange = true) (hh : m.isHello = false) (hd : m.inDomain = true) :
+    ∃ c, m.content = .ok c ∧ ∀ k ∈ m.handlers, decode k c = .ok m.fields := by
   obtain ⟨c, hc⟩ := (inRange_iff_encodes m).1 hr
-  exact ⟨c, hc, content_roundtrip m c hc hh hd hs⟩
+  exact ⟨c, hc, content_roundtrip m c hc hh hd⟩
 
 /-- STATP record round trip (n two-byte records, or a last / only record of one byte), both twin handler classes -/
 theorem statp_roundtrip (changes : List (Int × Bytes)) (hr : (Msg.partialUpdate changes).inRange = true)
@@ -60,7 +59,7 @@ theorem statp_roundtrip (changes : List (Int × Bytes)) (hr : (Msg.partialUpdate
     ∃ c, (Msg.partialUpdate changes).content = .ok c ∧
       decode .partialStatus c = .ok (.partialStatus none changes true) ∧
       decode .asyncPartialStatus c = .ok (.partialStatus none changes true) := by
-  obtain ⟨c, hc, h⟩ := roundtrip (.partialUpdate changes) hr rfl hok rfl
+  obtain ⟨c, hc, h⟩ := roundtrip (.partialUpdate changes) hr rfl hok
   exact ⟨c, hc, h _ (by simp [Msg.handlers]), h _ (by simp [Msg.handlers])⟩
 
 /-- reminders with signed days: any list of (type ∈ GeckoReminderType, days ∈ −32768..32767) -/
@@ -79,7 +78,13 @@ theorem reminders_roundtrip (rs : List (Int × Int))
     simp only [Msg.inDomain, List.all_eq_true]
     intro td htd
     simpa using (hr td htd).1
-  obtain ⟨c, hc, h⟩ := roundtrip (.remindersResponse rs) h1 rfl h2 rfl
+  obtain ⟨c, hc, h⟩ := roundtrip (.remindersResponse rs) h1 rfl h2
+  exact ⟨c, hc, h _ (by simp [Msg.handlers])⟩
+
+/-- SETWC (fix b4425b7): the watercare handler reads back sequence and mode, for every byte pair -/
+theorem setwc_roundtrip (seq mode : Int) (hr : (Msg.wcSet seq mode).inRange = true) :
+    ∃ c, (Msg.wcSet seq mode).content = .ok c ∧ decode .watercare c = .ok (.watercare (some seq) (some mode) false false) := by
+  obtain ⟨c, hc, h⟩ := roundtrip (.wcSet seq mode) hr rfl rfl
   exact ⟨c, hc, h _ (by simp [Msg.handlers])⟩
 
 /-- FILES reply, every shipped platform name × EVERY pair of version numbers (not only 0..99) -/
@@ -89,7 +94,7 @@ theorem files_roundtrip : ∀ p ∈ platformNames, ∀ cv lv : Nat,
   intro p hp cv lv
   have hg : GoodName p = true := by
     revert p; decide
-  obtain ⟨c, hc, h⟩ := roundtrip (.configResponse p cv lv) rfl rfl hg rfl
+  obtain ⟨c, hc, h⟩ := roundtrip (.configResponse p cv lv) rfl rfl hg
   exact ⟨c, hc, h _ (by simp [Msg.handlers])⟩
 
 /-! ## 3. hello -/
@@ -113,32 +118,22 @@ theorem hello_roundtrip_split (id name : Bytes) (h : (Msg.helloResponse id name)
   simp only [Msg.inDomain, Bool.and_eq_true, Bool.not_eq_true', List.contains_eq_mem, decide_eq_false_iff_not] at h
   exact hello_response_rt_split id name h.1 hname h.2
 
-/- FULL:
+/-- **hello response round trip, FULL**: the decoder of the source (`split(b"|", 1)`) returns identifier and name for
+EVERY name — including names containing the separator `|` — and every identifier in the domain -/
 theorem hello_roundtrip (id name : Bytes) (h : (Msg.helloResponse id name).inDomain = true) :
-    decode .hello (helloFrame (id ++ [helloSep] ++ name)) = .ok (Msg.helloResponse id name).fields
-false for the current source (`hello_name_with_bar_fails`, `helloNeedsCleanName = true`).  After fix D2
-(`content.split(b"|", 1)`) the translator emits `helloSplitMax = some 1`, `helloNeedsCleanName` evaluates to `false` and
-`hello_roundtrip_partial id name h (by decide)` IS this statement. -/
-
-/-- hello response round trip for the decoder of the source as it is: the name is restricted only while the source needs it -/
-theorem hello_roundtrip_partial (id name : Bytes) (h : (Msg.helloResponse id name).inDomain = true)
-    (hname : helloNeedsCleanName = true → helloSep ∉ name) :
     decode .hello (helloFrame (id ++ [helloSep] ++ name)) = .ok (Msg.helloResponse id name).fields := by
-  first
-    | (have e : helloSplitMax = none := rfl
-       show decodeHelloWith helloSplitMax _ = _
-       rw [e]
-       exact hello_roundtrip_split id name h (hname (by decide)))
-    | (have e : helloSplitMax = some 1 := rfl
-       show decodeHelloWith helloSplitMax _ = _
-       rw [e]
-       exact hello_roundtrip_split1 1 id name h)
+  show decodeHelloWith helloSplitMax _ = _
+  rw [show helloSplitMax = some 1 from rfl]
+  exact hello_roundtrip_split1 1 id name h
 
-/-- D2 witness: spa "SPA" named "a|b" is in the domain, is encoded, and the decoder without `maxsplit` raises ValueError -/
+/-- what D2 was: spa "SPA" named "a|b" is in the domain, is encoded, and the OLD decoder (`split` without `maxsplit`) raises
+ValueError — while the decoder of the source now returns the name -/
 theorem hello_name_with_bar_fails :
     (Msg.helloResponse [83, 80, 65] [97, 124, 98]).inDomain = true ∧
     (Msg.helloResponse [83, 80, 65] [97, 124, 98]).sendBytes [] [] = .ok (helloFrame [83, 80, 65, 124, 97, 124, 98]) ∧
-    decodeHelloWith none (helloFrame [83, 80, 65, 124, 97, 124, 98]) = .error .valueErr := by decide
+    decodeHelloWith none (helloFrame [83, 80, 65, 124, 97, 124, 98]) = .error .valueErr ∧
+    decode .hello (helloFrame [83, 80, 65, 124, 97, 124, 98]) = .ok (.hello false none (some [83, 80, 65]) (some [97, 124, 98])) := by
+  decide
 
 /-! ## 4. packet framing -/
 
@@ -172,58 +167,47 @@ theorem frame_roundtrip_lazy (src dst payload : Bytes) (hs : 60 ∉ src) (hd : 6
     (allClash_of_not_mem _ 60 _ rfl src hs) (allClash_of_not_mem _ 60 _ rfl dst hd)
   rw [search_of_matchHere _ _ _ _ this]
 
-/- FULL:
+/-- **packet framing round trip, FULL**: the regex of the source (lazy, lazy, greedy) recovers source identifier,
+destination identifier and payload for ARBITRARY payload bytes (newlines, NULs, tag-like text, whole delimiter runs) and
+all identifiers without `<` -/
 theorem frame_roundtrip (src dst payload : Bytes) (hs : 60 ∉ src) (hd : 60 ∉ dst) :
-    decodePacket (frame dst src payload) = .ok (.packet (some src) (some dst) (some payload))
-false for the current source (`frame_roundtrip_fails`, `regexNeedsCleanPayload = true`).  After fix D3 (`(.*?)` for the first
-two groups) the translator emits `regexGreedy = (false, false, true)`, `regexNeedsCleanPayload` evaluates to `false` and
-`frame_roundtrip_partial src dst payload hs hd (by decide)` IS this statement. -/
-
-/-- packet framing round trip for the regex of the source as it is: the payload is restricted only while the source
-needs it -/
-theorem frame_roundtrip_partial (src dst payload : Bytes) (hs : 60 ∉ src) (hd : 60 ∉ dst)
-    (hp : regexNeedsCleanPayload = true → occurs (DESCN_CLOSE ++ DATAS_OPEN) payload = false) :
     decodePacket (frame dst src payload) = .ok (.packet (some src) (some dst) (some payload)) := by
   show decodePacketWith regexGreedy _ = _
-  first
-    | (have e : regexGreedy = (true, true, true) := rfl
-       rw [e]
-       exact frame_roundtrip_greedy src dst payload hs hd (hp (by decide)))
-    | (have e : regexGreedy = (false, false, true) := rfl
-       rw [e]
-       exact frame_roundtrip_lazy src dst payload hs hd)
+  rw [show regexGreedy = (false, false, true) from rfl]
+  exact frame_roundtrip_lazy src dst payload hs hd
 
-/-- D3 witness: src "A", dst "B", payload `x</SRCCN><DESCN>y</DESCN><DATAS>z` under three greedy groups — source id,
-destination id and content all come back wrong -/
+/-- what D3 was: src "A", dst "B", payload `x</SRCCN><DESCN>y</DESCN><DATAS>z` — with the OLD three greedy groups source
+id, destination id and content all come back wrong; with the regex of the source they come back right -/
 theorem frame_roundtrip_fails :
     decodePacketWith (true, true, true)
       (frame [66] [65] ([120] ++ SRCCN_CLOSE ++ DESCN_OPEN ++ [121] ++ DESCN_CLOSE ++ DATAS_OPEN ++ [122])) =
-      .ok (.packet (some ([65] ++ SRCCN_CLOSE ++ DESCN_OPEN ++ [66] ++ DESCN_CLOSE ++ DATAS_OPEN ++ [120])) (some [121]) (some [122])) := by
+      .ok (.packet (some ([65] ++ SRCCN_CLOSE ++ DESCN_OPEN ++ [66] ++ DESCN_CLOSE ++ DATAS_OPEN ++ [120])) (some [121]) (some [122])) ∧
+    decodePacket (frame [66] [65] ([120] ++ SRCCN_CLOSE ++ DESCN_OPEN ++ [121] ++ DESCN_CLOSE ++ DATAS_OPEN ++ [122])) =
+      .ok (.packet (some [65]) (some [66]) (some ([120] ++ SRCCN_CLOSE ++ DESCN_OPEN ++ [121] ++ DESCN_CLOSE ++ DATAS_OPEN ++ [122]))) := by
   decide +kernel
 
-/-- **reply addressing**: a reply built with the parms a packet handler holds after `handle(received, sender)` carries
-the received destination as its source and the received source as its destination -/
-theorem reply_swaps_partial (src dst payload reply : Bytes) (hs : 60 ∉ src) (hd : 60 ∉ dst)
-    (hp : regexNeedsCleanPayload = true → occurs (DESCN_CLOSE ++ DATAS_OPEN) payload = false) :
+/-- **reply addressing, FULL**: a reply built with the parms a packet handler holds after `handle(received, sender)`
+carries the received destination as its source and the received source as its destination — whatever the payloads -/
+theorem reply_swaps (src dst payload reply : Bytes) (hs : 60 ∉ src) (hd : 60 ∉ dst) :
     replyTo (PACKET_OPEN ++ frameBody src dst payload ++ PACKET_CLOSE) reply =
       some (PACKET_OPEN ++ frameBody dst src reply ++ PACKET_CLOSE) := by
-  have := frame_roundtrip_partial src dst payload hs hd hp
+  have := frame_roundtrip src dst payload hs hd
   rw [frame_eq] at this
   unfold replyTo
   rw [this]
   show some (frame src dst reply) = _
   rw [frame_eq]
 
-/-- sender to receiver, whole datagram: `send_bytes` of the built handler, `handle` of the packet handler, then
-`handle` of the verb's handler yields the fields (the content is restricted only while the regex of the source needs it) -/
-theorem wire_roundtrip_partial (m : Msg) (p2 p3 : Bytes) (hr : m.inRange = true) (hh : m.isHello = false)
-    (hd : m.inDomain = true) (hs : m.isWcSet = false) (h2 : 60 ∉ p2) (h3 : 60 ∉ p3) :
+/-- **sender to receiver, FULL**: for every message form, all in-range in-domain field values and all `<`-free identifier
+pairs: `send_bytes` of the built handler, `handle` of the packet handler (identifiers and content recovered), then
+`handle` of every handler class of the verb (fields recovered) -/
+theorem wire_roundtrip (m : Msg) (p2 p3 : Bytes) (hr : m.inRange = true) (hh : m.isHello = false)
+    (hd : m.inDomain = true) (h2 : 60 ∉ p2) (h3 : 60 ∉ p3) :
     ∃ dg c, m.sendBytes p2 p3 = .ok dg ∧ m.content = .ok c ∧
-      ((regexNeedsCleanPayload = true → occurs (DESCN_CLOSE ++ DATAS_OPEN) c = false) →
-        decodePacket dg = .ok (.packet (some p3) (some p2) (some c))) ∧
+      decodePacket dg = .ok (.packet (some p3) (some p2) (some c)) ∧
       ∀ k ∈ m.handlers, decode k c = .ok m.fields := by
-  obtain ⟨c, hc, hk⟩ := roundtrip m hr hh hd hs
-  refine ⟨frame p2 p3 c, c, by simp [Msg.sendBytes, hc, hh], hc, fun ho => frame_roundtrip_partial p3 p2 c h3 h2 ho, hk⟩
+  obtain ⟨c, hc, hk⟩ := roundtrip m hr hh hd
+  exact ⟨frame p2 p3 c, c, by simp [Msg.sendBytes, hc, hh], hc, frame_roundtrip p3 p2 c h3 h2, hk⟩
 
 /-! ## 5. claimed by exactly its handler -/
 
@@ -233,26 +217,21 @@ theorem verbs_prefix_free :
     ∀ v ∈ allVerbs, ∀ w ∈ allVerbs ++ allTags, v ≠ w → v.isPrefixOf w = false ∧ w.isPrefixOf v = false := by
   decide
 
-/- FULL:
-theorem claimed_by_exactly (m : Msg) (hh : m.isHello = false) (c : Bytes) (hc : m.content = .ok c) :
-    ∀ k ∈ standardHandlers, canHandle k c = m.handlers.contains k
-false for the current source (`setwc_unclaimed`, `giveschedule_unclaimed`).  `Msg.orphan` is computed from the verb lists the
-translator reads out of every `can_handle`: after fix D4 (SETWC_VERB and WCREQ_VERB tested by
-`GeckoWatercareProtocolHandler.can_handle`) `m.orphan = false` holds for EVERY m (`by cases m <;> rfl`) and
-`claimed_by_exactly_partial` IS this statement. -/
+/-- no message the library builds is an orphan: the verb of every form is tested by the `can_handle` of every handler
+class meant for it (the verb lists are read from the source) -/
+theorem orphan_none (m : Msg) : m.orphan = false := by
+  cases m <;> first | rfl | (simp only [Msg.orphan, Msg.verb, Msg.handlers]; decide)
 
-/-- every message the library builds whose verb is tested by its handler's `can_handle` (today: all but SETWC and WCREQ,
-`orphan_exactly`) is accepted by exactly the handler class(es) of its verb among the standard handler classes, whatever
-its field values -/
-theorem claimed_by_exactly_partial (m : Msg) (hh : m.isHello = false) (ho : m.orphan = false) (c : Bytes)
-    (hc : m.content = .ok c) : ∀ k ∈ standardHandlers, canHandle k c = m.handlers.contains k := by
+/-- **claimed by exactly its handler, FULL**: the content of EVERY message the library builds is accepted by exactly the
+handler class(es) of its verb among the standard handler classes, whatever its field values -/
+theorem claimed_by_exactly (m : Msg) (hh : m.isHello = false) (c : Bytes) (hc : m.content = .ok c) :
+    ∀ k ∈ standardHandlers, canHandle k c = m.handlers.contains k := by
   obtain ⟨b, _, rfl⟩ := content_ok hc
   have table : ∀ v, m.verb = some v → v ∈ allVerbs ∧
       ∀ k ∈ standardHandlers, (k == .unhandled || k.claims.contains v) = m.handlers.contains k := by
     cases m <;> first
       | (intro v hv; simp only [Msg.verb, Option.some.injEq] at hv; subst hv; simp only [Msg.handlers]; decide)
       | (simp [Msg.isHello] at hh; done)
-      | (exfalso; revert ho; simp only [Msg.orphan, Msg.verb, Msg.handlers]; decide)
   cases hv : m.verb with
   | none => cases m <;> first | (simp [Msg.isHello] at hh; done) | (simp [Msg.verb] at hv; done)
   | some v =>
@@ -261,14 +240,6 @@ theorem claimed_by_exactly_partial (m : Msg) (hh : m.isHello = false) (ho : m.or
     simp only [Option.getD]
     rw [canHandle_verb k v b hmem]
     exact ht k hk
-
-/-- which messages are orphans today: exactly the two watercare forms (this is the statement that changes with fix D4) -/
-theorem orphan_exactly (m : Msg) (hh : m.isHello = false) :
-    m.orphan = true → (∃ s md, m = .wcSet s md) ∨ m = .wcGiveSchedule := by
-  cases m <;> first
-    | (intro h; exfalso; revert h; simp only [Msg.orphan, Msg.verb, Msg.handlers]; decide)
-    | (intro _; exact Or.inl ⟨_, _, rfl⟩)
-    | (intro _; exact Or.inr rfl)
 
 /-- on the wire: a hello datagram is claimed by the hello handler only, every packet datagram by the packet handler
 only — for arbitrary identifiers and content -/
@@ -287,37 +258,17 @@ theorem datagram_claimed (m : Msg) (p2 p3 dg : Bytes) (h : m.sendBytes p2 p3 = .
     · simp only [if_true, canHandle_helloFrame]
       cases k <;> first | rfl | (exact absurd hk (by decide))
 
-/-- D4 witness: while SETWC is an orphan, NO standard handler class accepts the SETWC message the library builds
-(any seq, mode) -/
-theorem setwc_unclaimed (seq mode : Int) (ho : (Msg.wcSet seq mode).orphan = true) (c : Bytes)
-    (hc : (Msg.wcSet seq mode).content = .ok c) : ∀ k ∈ standardHandlers, canHandle k c = false := by
-  obtain ⟨b, _, rfl⟩ := content_ok hc
-  have hw : Handler.watercare.claims.contains SETWC_VERB = false := by
-    simpa [Msg.orphan, Msg.verb, Msg.handlers] using ho
-  intro k hk
-  simp only [Msg.verb, Option.getD]
-  rw [canHandle_verb k _ b (by decide)]
-  cases k <;> first | exact hw | rfl | (exact absurd hk (by decide))
-
-/-- D4 witness: while WCREQ is an orphan, no standard handler class accepts the WCREQ message the library builds -/
-theorem giveschedule_unclaimed (ho : Msg.wcGiveSchedule.orphan = true) (c : Bytes) (hc : Msg.wcGiveSchedule.content = .ok c) :
-    ∀ k ∈ standardHandlers, canHandle k c = false := by
-  obtain ⟨b, _, rfl⟩ := content_ok hc
-  have hw : Handler.watercare.claims.contains WCREQ_VERB = false := by
-    simpa [Msg.orphan, Msg.verb, Msg.handlers] using ho
-  intro k hk
-  simp only [Msg.verb, Option.getD]
-  rw [canHandle_verb k _ b (by decide)]
-  cases k <;> first | exact hw | rfl | (exact absurd hk (by decide))
-
-/-- … and were the watercare handler given a SETWC it would take it for WCSET: sequence and mode are dropped -/
-theorem setwc_fields_lost (seq mode : Int) (c : Bytes) (hc : (Msg.wcSet seq mode).content = .ok c) :
-    decode .watercare c = .ok (.watercare none none false true) ∧
-    (Msg.wcSet seq mode).fields ≠ .watercare none none false true := by
-  obtain ⟨b, _, rfl⟩ := content_ok hc
-  constructor
-  · simp [decode, decodeWatercare, startsWith, Msg.verb, SETWC_VERB, GETWC_VERB, REQWC_VERB, WCGET_VERB, List.isPrefixOf]
-  · simp [Msg.fields]
+/-- what D4 was: the OLD verb list of `GeckoWatercareProtocolHandler.can_handle` (GETWC, WCGET, REQWC, WCSET) accepts neither
+the SETWC nor the WCREQ content the library builds, whatever follows the verb; the list of the source accepts both -/
+theorem old_watercare_claims_miss_setwc_wcreq (rest : Bytes) :
+    [GETWC_VERB, WCGET_VERB, REQWC_VERB, WCSET_VERB].any (startsWith (SETWC_VERB ++ rest)) = false ∧
+    [GETWC_VERB, WCGET_VERB, REQWC_VERB, WCSET_VERB].any (startsWith (WCREQ_VERB ++ rest)) = false ∧
+    canHandle .watercare (SETWC_VERB ++ rest) = true ∧ canHandle .watercare (WCREQ_VERB ++ rest) = true := by
+  refine ⟨?_, ?_, ?_, ?_⟩
+  · rw [any_startsWith_verb _ _ _ (by decide)]; decide
+  · rw [any_startsWith_verb _ _ _ (by decide)]; decide
+  · rw [canHandle_verb _ _ _ (by decide)]; decide
+  · rw [canHandle_verb _ _ _ (by decide)]; decide
 
 /-! ## 6. the byte layout: the captured vectors of tests/test_protocol.py (re-extracted on every run) -/
 
@@ -351,18 +302,14 @@ example : (Msg.helloResponse [83, 80, 65] [97, 124, 98]).inDomain = true ∧ (Ms
 example : (60 : UInt8) ∉ [73, 79, 83, 49] ∧ occurs (DESCN_CLOSE ++ DATAS_OPEN) [10, 0, 60, 47, 68, 65, 84, 65, 83, 62] = false ∧
     occurs (DESCN_CLOSE ++ DATAS_OPEN) ([1] ++ DESCN_CLOSE ++ DATAS_OPEN ++ [2]) = true := by decide
 example : (Msg.versionRequest 7).orphan = false ∧ (Msg.statusSegment 1 0 [60]).orphan = false ∧ Handler.watercare ∈ standardHandlers := by decide
-example : (Msg.setValue 200 6 9 9 15 2 702).isHello = false ∧ (Msg.setValue 200 6 9 9 15 2 702).isWcSet = false ∧
+example : (Msg.setValue 200 6 9 9 15 2 702).isHello = false ∧ (Msg.wcSet 255 0).inRange = true ∧ (Msg.wcSet 255 0).inDomain = true ∧
     (Msg.statusSegment 3 0 [60, 47, 10, 0]).inRange = true ∧ (Msg.statusSegment 3 0 [60, 47, 10, 0]).inDomain = true := by decide
 example : ([73, 110, 88, 77] : Bytes) ∈ platformNames ∧ ([77, 114, 83, 116] : Bytes) ∈ platformNames ∧ 14 ≤ platformNames.length := by decide
--- the guards: each is `true` exactly while the defect is in the source (both alternatives are stated so that the
--- example survives the fix)
-example : (helloNeedsCleanName = true ∧ helloSplitMax = none) ∨ (helloNeedsCleanName = false ∧ helloSplitMax = some 1) := by decide
-example : (regexNeedsCleanPayload = true ∧ regexGreedy = (true, true, true)) ∨
-    (regexNeedsCleanPayload = false ∧ regexGreedy = (false, false, true)) := by decide
-example : ((Msg.wcSet 1 2).orphan = true ∧ Msg.wcGiveSchedule.orphan = true) ∨
-    (claims_Watercare.contains SETWC_VERB = true ∧ claims_Watercare.contains WCREQ_VERB = true) := by decide
-example : helloNeedsCleanName = true → helloSep ∉ ([77, 121, 32, 83, 112, 97] : Bytes) := by decide
-example : regexNeedsCleanPayload = true → occurs (DESCN_CLOSE ++ DATAS_OPEN) [83, 84, 65, 84, 86, 3, 0, 2, 60, 10] = false := by decide
+-- the generated facts the full-strength proofs rest on
+example : helloSplitMax = some 1 ∧ regexGreedy = (false, false, true) ∧ claims_Watercare.contains SETWC_VERB = true ∧
+    claims_Watercare.contains WCREQ_VERB = true := by decide
+-- payloads the full framing theorem covers and the old one did not
+example : occurs (DESCN_CLOSE ++ DATAS_OPEN) ([1] ++ SRCCN_CLOSE ++ DESCN_OPEN ++ [2] ++ DESCN_CLOSE ++ DATAS_OPEN ++ [3]) = true := by decide
 example : (Msg.helloResponse [83, 80, 65, 48, 49] [77, 121, 32, 83, 112, 97]).inDomain = true := by decide
 example : ∀ td ∈ [((1 : Int), (-13 : Int)), (6, 32767), (0, -32768)], td.1 ∈ reminderTypeValues ∧ -32768 ≤ td.2 ∧ td.2 < 32768 := by
   decide
